@@ -10,6 +10,10 @@ A program is built from a flat sequence of tokens over two variable names:
     C       call           r<i> := f<latest>(2)   (inside a function: f<latest>(n - 1))
     T       return closure return f<latest>
     V       invoke         r<latest>(2)  /  r<latest>(n - 1)
+  (only in the loop-closure stream, `TOKENS_LOOP`:)
+    Rw      read the innermost enclosing loop variable      print(w<i>)
+    K       keep the first   if kset == false { k0 = f<latest>; kset = true; }     (such a program starts `k0 := null`, `kset := false`)
+    L       call the kept    k0(2)  /  k0(n - 1)
 
 Every identifier occurrence is an `Occ` object, so that a renaming is exact.  `Ref` is an independent reference
 interpreter (lexical scoping with shared environments) that predicts stdout and the exit status and records, for
@@ -19,6 +23,7 @@ variables that can be renamed consistently.
 import itertools
 
 TOKENS = ["Da", "Db", "Aa", "Ab", "Ra", "Rb", "{", "F", "W", "}", "C", "T", "V"]
+TOKENS_LOOP = ["W", "F", "Da", "Aa", "Ra", "Rw", "}", "K", "L"]
 
 
 class Occ:
@@ -53,10 +58,30 @@ def build(seq, final=True):
     last_f = None
     last_r = None
     nreads = 0
+    kept = False
+    if "K" in seq or "L" in seq:
+        root.append(("decl0", b.occ("k0", True), "null"))
+        root.append(("decl0", b.occ("kset", True), "false"))
     for i, t in enumerate(seq):
         kind, body, node = stack[-1]
         infn = [s for s in stack if s[0] == "fn"]
-        if t[0] in "DAR" and len(t) == 2:
+        if t == "Rw":
+            loops = [s for s in stack if s[0] == "loop"]
+            if not loops:
+                return None
+            nreads += 1
+            body.append(("read", b.occ(loops[-1][2]), 0))
+        elif t == "K":
+            if last_f is None:
+                return None
+            kept = True
+            body.append(("keep", b.occ("kset"), b.occ("k0"), b.occ(last_f), b.occ("kset")))
+        elif t == "L":
+            if not kept:
+                return None
+            arg = ("nm1", b.occ("n")) if infn else ("lit", 2)
+            body.append(("callk", b.occ("k0"), arg))
+        elif t[0] in "DAR" and len(t) == 2:
             x = t[1]
             if x not in seen_names:
                 if x == "b" and "a" not in seen_names:
@@ -88,7 +113,7 @@ def build(seq, final=True):
         elif t == "W":
             nb = []
             body.append(("loop", b.occ(f"w{i}", True), nb))
-            stack.append(("loop", nb, None))
+            stack.append(("loop", nb, f"w{i}"))
         elif t == "}":
             if len(stack) == 1 or not body:
                 return None
@@ -119,10 +144,12 @@ def build(seq, final=True):
     return root, b.n
 
 
-def sequences(maxlen):
+def sequences(maxlen, tokens=None):
     """all token sequences of length <= maxlen whose every prefix passes the prefix-closed pruning rules (depth first)"""
+    tokens = tokens or TOKENS
+
     def go(prefix):
-        for t in TOKENS:
+        for t in tokens:
             seq = prefix + (t,)
             if build(seq, final=False) is None:
                 continue
@@ -177,6 +204,12 @@ def render(ast, ren=None):
             elif k == "ret":
                 out.append(f"{p}return {nm(s[1])}")
             elif k == "inv":
+                out.append(f"{p}{nm(s[1])}({arg(s[2])})")
+            elif k == "decl0":
+                out.append(f"{p}{nm(s[1])} := {s[2]}")
+            elif k == "keep":
+                out.append(f"{p}if {nm(s[1])} == false {{ {nm(s[2])} = {nm(s[3])}; {nm(s[4])} = true; }}")
+            elif k == "callk":
                 out.append(f"{p}{nm(s[1])}({arg(s[2])})")
     go(ast, 0)
     return "\n".join(out) + "\n"
@@ -312,11 +345,19 @@ class Ref:
                 self.declare(env, s[1], self.call(f, a))
             elif k == "ret":
                 raise Ret(self.cell(env, s[1])[0])
-            elif k == "inv":
+            elif k in ("inv", "callk"):
                 a = self.arg(env, s[2])
                 f = self.cell(env, s[1])[0]
                 self.cur_env = env
                 self.call(f, a)
+            elif k == "decl0":
+                self.declare(env, s[1], None if s[2] == "null" else False)
+            elif k == "keep":
+                if self.cell(env, s[1])[0] is False:
+                    f = self.cell(env + [{}], s[3])[0]
+                    self.cell(env + [{}], s[2])[0] = f
+                    self.cell(env + [{}], s[4])[0] = True
+                    self.flags.add("closure-kept-across-iterations")
 
 
 def reference(ast, nocc):
@@ -357,9 +398,13 @@ def occurrences(ast):
             elif k == "call":
                 res.extend([s[1], s[2]])
                 arg(s[3])
-            elif k == "inv":
+            elif k in ("inv", "callk"):
                 res.append(s[1])
                 arg(s[2])
+            elif k == "decl0":
+                res.append(s[1])
+            elif k == "keep":
+                res.extend([s[1], s[2], s[3], s[4]])
     go(ast)
     return res
 
@@ -410,6 +455,8 @@ _PATS = [
     ("loop", _re.compile(r"^for \[_, (\w+)\] in 0 \.\. 2 \{$")),
     ("call", _re.compile(r"^(\w+) := (\w+)\((2|(\w+) - 1)\)$")),
     ("ret", _re.compile(r"^return (\w+)$")),
+    ("decl0", _re.compile(r"^(\w+) := (null|false)$")),
+    ("keep", _re.compile(r"^if (\w+) == false \{ (\w+) = (\w+); (\w+) = true; \}$")),
     ("inv", _re.compile(r"^(\w+)\((2|(\w+) - 1)\)$")),
 ]
 
@@ -449,7 +496,7 @@ def parse_text(src):
                     body.append(("read", b.occ(m.group(1)), 1))
                 elif k == "fn":
                     f, n = b.occ(m.group(1), True), b.occ(m.group(2), True)
-                    g = _PATS[5][1].match(lines[pos[0]]) if pos[0] < len(lines) else None
+                    g = dict(_PATS)["guard"].match(lines[pos[0]]) if pos[0] < len(lines) else None
                     if not g:
                         raise ValueError("guard")
                     pos[0] += 1
@@ -467,6 +514,12 @@ def parse_text(src):
                     body.append(("call", r, f, arg(m, 3)))
                 elif k == "ret":
                     body.append(("ret", b.occ(m.group(1))))
+                elif k == "decl0":
+                    body.append(("decl0", b.occ(m.group(1), True), m.group(2)))
+                elif k == "keep":
+                    body.append(("keep", b.occ(m.group(1)), b.occ(m.group(2)), b.occ(m.group(3)), b.occ(m.group(4))))
+                elif k == "inv" and m.group(1) == "k0":
+                    body.append(("callk", b.occ(m.group(1)), arg(m, 2)))
                 elif k == "inv":
                     body.append(("inv", b.occ(m.group(1)), arg(m, 2)))
                 elif k == "guard":
